@@ -33,17 +33,24 @@ def scenario(c, rnd):
             out.append((NAMES['h2'], pool[v2]))
         rnd.shuffle(out)
         return out
-    if p['star']:
-        vary = '*'
-    else:
-        names = [NAMES[s] for s, on in (('h1', p['vary1']), ('h2', p['vary2'])) if on]
-        rnd.shuffle(names)
-        if names and rnd.random() < 0.25:
-            names.append(names[0])      # repeated name
-        vary = ', '.join(spell_name(rnd, n) for n in names)
+    names = [NAMES[s] for s, on in (('h1', p['vary1']), ('h2', p['vary2'])) if on]
+    rnd.shuffle(names)
+    if names and rnd.random() < 0.25:
+        names.append(names[0])      # repeated name
+    names = [spell_name(rnd, n) for n in names]
     oh = [('Cache-Control', 'max-age=3600')]
-    if vary:
-        oh.append(('Vary', vary))
+    sp = p['starpos']
+    if sp == 'only':
+        oh.append(('Vary', '*'))
+    elif sp == 'first':
+        oh.append(('Vary', ', '.join(['*'] + names)))
+    elif sp == 'last':
+        oh.append(('Vary', ', '.join(names + ['*'])))
+    elif sp == 'second-field':
+        oh.append(('Vary', ', '.join(names)))
+        oh.append(('Vary', '*'))
+    elif names:
+        oh.append(('Vary', ', '.join(names)))
     oabs = dict(vary1=bool(p['vary1']), vary2=bool(p['vary2']), star=bool(p['star']))
     origin = {'status': 200, 'hdrs': oh, 'blen': rnd.choice([10, 3000]), 'abs': oabs}
     A = dict(v1=p['a1'], v2=p['a2'])
@@ -63,7 +70,7 @@ def run(ctx):
     classes.sort(key=lambda c: json.dumps(c, sort_keys=True))
     if not ctx.thorough:
         rnd.shuffle(classes)
-        classes = classes[:400]
+        classes = [c for c in classes if c['par']['star']][:150] + [c for c in classes if not c['par']['star']][:300]
     scens = [scenario(c, random.Random(ctx.seed * 7919 + i)) for i, c in enumerate(classes)]
     out = cachesim.run_scenarios(ctx, tree, scens, 6)
     hist = [{'ev': cachesim.strip_for_tlc(ev)} for _, ev in out]
